@@ -79,7 +79,9 @@ def build_kinds(rng, cap):
             poolw.append(refenc.family_nlri_bytes((afi, 128), [r], withdraw=True))
         K[name] = dict(pool=pool, dec=lambda d, cls=cls: cls.parse(d), join=cat)
         K[name + '-withdraw'] = dict(pool=poolw, dec=lambda d, cls=cls: cls.parse(d, iswithdraw=True), join=cat)
-    K['evpn-routes'] = dict(pool=[refenc.evpn_route_bytes(gen.evpn_route(rng, t)) for t in (1, 2, 3, 4) for _ in range(40)],
+    # route types the decoder does not know are skipped: alone they decode to nothing, in a list they must not disturb the others
+    evpn_unknown = [bytes([t, len(b)]) + b for t in (0, 6, 7, 8, 11, 255) for b in (b'', b'\x00' * 8, bytes(range(1, 24)))]
+    K['evpn-routes'] = dict(pool=[refenc.evpn_route_bytes(gen.evpn_route(rng, t)) for t in (1, 2, 3, 4) for _ in range(40)] + evpn_unknown,
                             dec=lambda d: EVPN.parse(d), join=cat)
     fs_hdr = struct.pack('!HBBB', 1, 133, 0, 0)
     K['flowspec-rules'] = dict(pool=[refenc.flowspec_rule_bytes(gen.flowspec_rule(rng)) for _ in range(120)],
@@ -304,16 +306,32 @@ def run_shard(sh):
     # ---- attribute permutations of UPDATEs
     from yabgp.message.update import Update
     nperm = 0
-    for _ in range(60 if sh['tier'] == 'quick' else 1500):
+    for _ in range(400 if sh['tier'] == 'quick' else 4000):
         asn4 = rng2.random() < 0.5
         at = gen.std_attrs(rng2, asn4)
         if rng2.random() < 0.5:
             at[14] = gen.mp_value(rng2, rng2.choice(['ipv6', 'vpnv4', 'evpn', 'flowspec']), nmax=3)
-        at.pop(16, None) if False else None
         if len(at) < 2:
             continue
         codes = sorted(at)
         enc = {c: refenc.attr(c, refenc.std_attr_value(c, at[c], asn4)) for c in codes}
+        if not asn4 and rng2.random() < 0.6:
+            # a 2-octet session: AS4_PATH / AS4_AGGREGATOR (always 4-octet encoded) next to the 2-octet AS_PATH / AGGREGATOR
+            if rng2.random() < 0.8:
+                enc[17] = refenc.attr(17, refenc.as_path_bytes([[2, [rng2.choice(gen.ASN4) for _ in range(rng2.randint(1, 4))]]], True))
+            if rng2.random() < 0.5:
+                enc[18] = refenc.attr(18, struct.pack('!I', rng2.choice(gen.ASN4)) + refenc.ip_bytes(gen.ipv4(rng2)))
+            for c in (2, 7):
+                if c not in enc and rng2.random() < 0.7:
+                    v = [[2, [rng2.choice(gen.ASN2) for _ in range(rng2.randint(1, 3))]]] if c == 2 else None
+                    enc[c] = refenc.attr(2, refenc.as_path_bytes(v, False)) if c == 2 else \
+                        refenc.attr(7, struct.pack('!H', rng2.choice(gen.ASN2)) + refenc.ip_bytes(gen.ipv4(rng2)))
+        if rng2.random() < 0.3:
+            uc = rng2.choice([99, 200, 254])
+            enc[uc] = refenc.attr(uc, bytes(rng2.randrange(256) for _ in range(rng2.randint(0, 12))))
+        codes = sorted(enc)
+        if len(codes) > 7:
+            codes = sorted(rng2.sample(codes, 7))
         try:
             base = _N(Update.parse_attributes(b''.join(enc[c] for c in codes), asn4))
         except Exception:
